@@ -2,6 +2,7 @@ import Otel.Base.Wire
 import Otel.C15.Model
 import Otel.C15.Spec
 import Otel.C15.Gate
+import Otel.C15.Lag
 open Otel Otel.Wire Otel.C15
 
 /-! Driver of C15. Line kinds: see harness/bb/c15life/c15_test.go (header). -/
@@ -200,7 +201,8 @@ def parseLPOp (t : String) (o : Option (Res × List (Nat × Cnt))) : Option LP.O
   match t.splitOn ":" with
   | ["lg", k] => k.toNat?.map .logger
   | ["em", k] => k.toNat?.map .emit
-  | ["ff", c] => (parseCtx c).map fun c => .flush c { e := fun _ => isErr, k := fun i => (deltaOf ds i).f }
+  | ["ff", c] => (parseCtx c).map fun c =>
+      .flush c { e := fun _ => isErr, k := fun i => (deltaOf ds i).f, x := fun i => (deltaOf ds i).n }
   | ["sd", c] => (parseCtx c).map fun c => .shutdown c { e := fun _ => isErr, k := fun i => (deltaOf ds i).n }
   | _ => none
 
@@ -227,17 +229,57 @@ def lpBranches (s : LP.St) : List LP.Op → List String
   | [] => []
   | op :: r => lpBranch s op :: lpBranches (LP.step s op).1 r
 
+/-- One observed step = an optional asynchronous arrival (`land`, Lag.lean) followed by the API op.  A call that
+cannot export by itself (Logger, Emit, anything after Shutdown) but shows exports of a batch processor is preceded
+by a `land` of that size; for a ForceFlush / Shutdown that reaches the processors the observed export count is the
+choice `x` / `k` of the op itself. -/
+def parseLPSteps (kinds : List LP.LKind) :
+    Bool → List (String × Option (Res × List (Nat × Cnt))) → Option (List (Option (Nat → Nat) × LP.Op))
+  | _, [] => some []
+  | stopped, (t, o) :: rest => do
+    let op ← parseLPOp t o
+    let ds := (o.map (·.2)).getD []
+    let lag : Nat → Nat := fun i => if LP.kindOf kinds i == .batchRec then (deltaOf ds i).n else 0
+    let hasLag := !Lag.L.attempts stopped op && (List.range kinds.length).any (fun i => lag i != 0)
+    let stopped' := stopped || (match op with | .shutdown _ _ => true | _ => false)
+    pure ((if hasLag then some lag else none, op) :: (← parseLPSteps kinds stopped' rest))
+
+def lpLagOps : List (Option (Nat → Nat) × LP.Op) → List Lag.L.LOp
+  | [] => []
+  | (some l, o) :: r => .land l :: .api o :: lpLagOps r
+  | (none, o) :: r => .api o :: lpLagOps r
+
+/-- observations for the oracle: the arrival gets an observation of its own (previous counters + the arrived
+exports), the API op the observed one -/
+def lpSynth (prev : Nat → Cnt) :
+    List (Option (Nat → Nat) × LP.Op) → List (Res × List (Nat × Cnt)) → List LP.Obs
+  | (lag, _) :: ss, (r, ds) :: rest =>
+    let cur := applyDeltas prev ds
+    match lag with
+    | some l => { res := .none, snap := fun i => { prev i with n := (prev i).n + l i } } ::
+        { res := r, snap := cur } :: lpSynth cur ss rest
+    | none => { res := r, snap := cur } :: lpSynth cur ss rest
+  | [], raws => lpObs prev raws
+  | _, [] => []
+
+def dropLands {α : Type} : List Lag.L.LOp → List α → List α
+  | .land _ :: ops, _ :: xs => dropLands ops xs
+  | .api _ :: ops, x :: xs => x :: dropLands ops xs
+  | _, _ => []
+
 def lpLine (kindsS : String) (opToks obsToks : List String) : Option Verdict := do
   let kinds ← parseKinds parseLKind kindsS
   let raw ← obsToks.mapM parseObs
-  let ops ← (zipOpt opToks raw).mapM fun (t, o) => parseLPOp t o
+  let steps ← parseLPSteps kinds false (zipOpt opToks raw)
+  let lops := lpLagOps steps
+  let ops := steps.map (·.2)
   let n := kinds.length
   let obs := lpObs (fun _ => {}) raw
-  let model := LP.run kinds ops
+  let model := dropLands lops (Lag.L.lrun kinds lops)
   let agree := model.length == obs.length &&
     (model.zip obs).all fun (m, o) => m.res == o.res && snapEq n m.snap o.snap
-  let fails := Spec.LP.check kinds ops obs
-  let br := dedup (lpBranches (LP.init kinds) ops)
+  let fails := Lag.L.lcheck kinds lops (lpSynth (fun _ => {}) steps raw)
+  let br := dedup (lpBranches (LP.init kinds) ops ++ (if steps.any (·.1.isSome) then ["late-export"] else []))
   pure { agree := agree, spec := if fails.any then "FAIL:" ++ failTags fails else "ok",
          nontrivial := raw.any (fun (_, ds) => !ds.isEmpty),
          branches := if br.isEmpty then "-" else ",".intercalate br,
@@ -258,16 +300,41 @@ def mpChoice (kinds : List MP.RKind) (o : Option (Res × List (Nat × Cnt))) (sh
     let firstP := (kinds.zipIdx.find? fun (k, _) => k == .periodic).map (·.2)
     { k := fun i => if sflag && (some i == firstP || !cflag) then 0 else 1 }
 
-def parseMPOps (kinds : List MP.RKind) : Bool → List (String × Option (Res × List (Nat × Cnt))) → Option (List MP.Op)
+/-- remove `l i` Export calls from the observed deltas (they are attributed to a preceding `land`) -/
+def subLag (l : Nat → Nat) (o : Option (Res × List (Nat × Cnt))) : Option (Res × List (Nat × Cnt)) :=
+  o.map fun (r, ds) => (r, ds.map fun (i, c) => (i, { c with n := c.n - l i }))
+
+/-- One observed step = an optional asynchronous arrival followed by the API op: Export calls of a periodic
+reader beyond what the call can cause by itself (one for a ForceFlush before Shutdown or the first Shutdown, none
+otherwise) are attributed to a preceding `land`. -/
+def parseMPSteps (kinds : List MP.RKind) :
+    Bool → List (String × Option (Res × List (Nat × Cnt))) → Option (List (Option (Nat → Nat) × MP.Op))
   | _, [] => some []
-  | shut, (t, o) :: rest =>
-    match t.splitOn ":" with
-    | ["mt", k] => do pure (.meter (← k.toNat?) :: (← parseMPOps kinds shut rest))
-    | ["ad", k] => do pure (.add (← k.toNat?) :: (← parseMPOps kinds shut rest))
-    | ["co", i] => do pure (.collect (← i.toNat?) :: (← parseMPOps kinds shut rest))
-    | ["ff", c] => do pure (.flush (← parseCtx c) (mpChoice kinds o shut) :: (← parseMPOps kinds shut rest))
-    | ["sd", c] => do pure (.shutdown (← parseCtx c) :: (← parseMPOps kinds true rest))
-    | _ => none
+  | shut, (t, o) :: rest => do
+    let ds := (o.map (·.2)).getD []
+    let isFS := t.startsWith "ff:" || t.startsWith "sd:"
+    let own := if isFS && !shut then 1 else 0
+    let lag : Nat → Nat := fun i => if MP.kindOf kinds i == .periodic then (deltaOf ds i).n - min (deltaOf ds i).n own else 0
+    let hasLag := (List.range kinds.length).any (fun i => lag i != 0)
+    let o' := if hasLag then subLag lag o else o
+    let (op, shut') ← match t.splitOn ":" with
+      | ["mt", k] => k.toNat?.map fun k => (MP.Op.meter k, shut)
+      | ["ad", k] => k.toNat?.map fun k => (MP.Op.add k, shut)
+      | ["co", i] => i.toNat?.map fun i => (MP.Op.collect i, shut)
+      | ["ff", c] => (parseCtx c).map fun c => (MP.Op.flush c (mpChoice kinds o' shut), shut)
+      | ["sd", c] => (parseCtx c).map fun c => (MP.Op.shutdown c, true)
+      | _ => none
+    pure ((if hasLag then some lag else none, op) :: (← parseMPSteps kinds shut' rest))
+
+def mpLagOps : List (Option (Nat → Nat) × MP.Op) → List Lag.M.MOp
+  | [] => []
+  | (some l, o) :: r => .land l :: .api o :: mpLagOps r
+  | (none, o) :: r => .api o :: mpLagOps r
+
+def dropLandsM {α : Type} : List Lag.M.MOp → List α → List α
+  | .land _ :: ops, _ :: xs => dropLandsM ops xs
+  | .api _ :: ops, x :: xs => x :: dropLandsM ops xs
+  | _, _ => []
 
 def mpObs (prev : Nat → Cnt) : List (Res × List (Nat × Cnt)) → List MP.Obs
   | [] => []
@@ -288,17 +355,30 @@ def mpBranches (s : MP.St) : List MP.Op → List String
   | [] => []
   | op :: r => mpBranch s op :: mpBranches (MP.step s op).1 r
 
+def mpSynth (prev : Nat → Cnt) :
+    List (Option (Nat → Nat) × MP.Op) → List (Res × List (Nat × Cnt)) → List MP.Obs
+  | (lag, _) :: ss, (r, ds) :: rest =>
+    let cur := applyDeltas prev ds
+    match lag with
+    | some l => { res := .none, snap := fun i => { prev i with n := (prev i).n + l i } } ::
+        { res := r, snap := cur } :: mpSynth cur ss rest
+    | none => { res := r, snap := cur } :: mpSynth cur ss rest
+  | [], raws => mpObs prev raws
+  | _, [] => []
+
 def mpLine (kindsS : String) (opToks obsToks : List String) : Option Verdict := do
   let kinds ← parseKinds parseRKind kindsS
   let raw ← obsToks.mapM parseObs
-  let ops ← parseMPOps kinds false (zipOpt opToks raw)
+  let steps ← parseMPSteps kinds false (zipOpt opToks raw)
+  let mops := mpLagOps steps
+  let ops := steps.map (·.2)
   let n := kinds.length
   let obs := mpObs (fun _ => {}) raw
-  let model := MP.run kinds ops
+  let model := dropLandsM mops (Lag.M.mrun kinds mops)
   let agree := model.length == obs.length &&
     (model.zip obs).all fun (m, o) => m.res == o.res && snapEq n m.snap o.snap
-  let fails := Spec.MP.check kinds ops obs
-  let br := dedup (mpBranches (MP.init kinds) ops)
+  let fails := Lag.M.mcheck kinds mops (mpSynth (fun _ => {}) steps raw)
+  let br := dedup (mpBranches (MP.init kinds) ops ++ (if steps.any (·.1.isSome) then ["late-export"] else []))
   pure { agree := agree, spec := if fails.any then "FAIL:" ++ failTags fails else "ok",
          nontrivial := raw.any (fun (_, ds) => !ds.isEmpty),
          branches := if br.isEmpty then "-" else ",".intercalate br,
